@@ -77,3 +77,10 @@ pub assume_specification<T, P: FnOnce(&T) -> bool> [Option::<T>::filter] (o: Opt
     ensures
         o is None ==> r is None,
         o is Some ==> exists|keep: bool| #[trigger] p.ensures((&o->Some_0,), keep) && (keep ==> r == o) && (!keep ==> r is None);
+
+// R4c: Cow<'static, str>::clone() yields an equal string value (vstd only gives the uninterpreted
+// `cloned` relation for it).
+#[verifier::external_body]
+pub fn cow_clone(c: &Cow<'static, str>) -> (r: Cow<'static, str>)
+    ensures r == *c,
+{ c.clone() }
